@@ -47,6 +47,12 @@ def run(ctx):
         if rng.random() < 0.2:
             opts["max_step"] = rng.choice([1.0, 2.0])       # produces infinite distances
         use_c = rng.random() < 0.5
+        # a layout request inside the caller's options must not matter: the model decides how it reads the matrix
+        mopts = dict(opts)
+        lay = rng.choice([None, None, False, True])
+        if lay is not None:
+            mopts["only_triu"] = lay
+            ctx.count("fits_with_only_triu_in_options:%s" % lay)
         captured = {}
 
         def dists_fun(series, **kw):
@@ -63,7 +69,7 @@ def run(ctx):
         max_dist = rng.choice(choices)
         hook_kind = rng.choice(["none", "none", "weight", "order", "both"])
         variant = rng.choice(["flat", "flat", "tree", "tree_kwargs"])
-        wit = dict(series=ss, options=opts, use_c=use_c, max_dist=max_dist, hooks=hook_kind, variant=variant)
+        wit = dict(series=ss, options=mopts, use_c=use_c, max_dist=max_dist, hooks=hook_kind, variant=variant)
 
         def build():
             events = []
@@ -102,14 +108,14 @@ def run(ctx):
                 events.append(ev)
                 return res
             self_max = [max_dist]
-            model = H.Hierarchical(dists_fun, dict(opts), max_dist=max_dist, merge_hook=merge_hook, order_hook=oh,
+            model = H.Hierarchical(dists_fun, dict(mopts), max_dist=max_dist, merge_hook=merge_hook, order_hook=oh,
                                    show_progress=False)
             if variant == "tree":
                 tree = H.HierarchicalTree(model)
                 self_max[0] = inf       # the tree variant resets max_dist (documented)
                 return tree, events, alive, state
             if variant == "tree_kwargs":
-                tree = H.HierarchicalTree(dists_fun=dists_fun, dists_options=dict(opts), max_dist=max_dist,
+                tree = H.HierarchicalTree(dists_fun=dists_fun, dists_options=dict(mopts), max_dist=max_dist,
                                           merge_hook=merge_hook, order_hook=oh, show_progress=False)
                 self_max[0] = inf
                 return tree, events, alive, state
@@ -191,7 +197,7 @@ def run(ctx):
         if n >= 2 and np.all(np.isfinite(Dfull[np.triu_indices(n, 1)])):
             method = rng.choice(["complete", "single", "average", "ward"])
             try:
-                lt = H.LinkageTree(lambda s, **kw: dtw.distance_matrix(s, use_c=use_c, **kw), dict(opts), method=method)
+                lt = H.LinkageTree(lambda s, **kw: dtw.distance_matrix(s, use_c=use_c, **kw), dict(mopts), method=method)
                 Z = np.asarray(lt.fit(data))
                 cond = np.array([Dfull[a, b] for a in range(n) for b in range(a + 1, n)])
                 Zs = sp_linkage(cond, method=method, metric="euclidean")
